@@ -59,7 +59,7 @@ IMPORTS = [
     'from .sib import thing', 'from .. import up', 'from ...far import away as aw', 'from .... import *', 'from dep import nothere', 'from zope.interface import Interface, implementer, Attribute, classImplements, moduleProvides',
     'from zope import interface, schema', 'import zope.interface', 'import attr', 'import attrs', 'from attr import s, ib', 'from twisted.python.deprecate import deprecated, deprecatedProperty, deprecatedModuleAttribute',
     'from twisted.python import deprecate', 'from incremental import Version', 'from typing import *', 'from typing import TypeVar, Final, ClassVar, overload, Union, TYPE_CHECKING, TypeAlias, Literal', 'import typing', 'import typing as t',
-    'from __future__ import annotations', 'import functools, abc', 'from functools import cached_property', 'from dataclasses import dataclass', 'import dep.sub.mod', 'import pkg', 'import pkg.dep', 'import pkg.sub.mod', 'from . import dep, sib', 'from pkg import dep, sib, mod', 'import pkg.sib as sib', 'from mod import C as Alias', 'from dep import Base as Base',
+    'from __future__ import annotations', 'import functools, abc', 'from functools import cached_property', 'from dataclasses import dataclass', 'import dep.sub.mod', 'from lib.pack.dep import Base', 'import lib.pack.mod as lpm', 'from lib.pack import dep as lpd', 'from lib import pack', 'import pkg', 'import pkg.dep', 'import pkg.sub.mod', 'from . import dep, sib', 'from pkg import dep, sib, mod', 'import pkg.sib as sib', 'from mod import C as Alias', 'from dep import Base as Base',
 ]
 
 SPECIAL_ASSIGN = [
